@@ -7,6 +7,7 @@ import (
 	"encoding/binary"
 	"fmt"
 	"io"
+	"reflect"
 	"strconv"
 	"strings"
 )
@@ -240,6 +241,12 @@ func (qc QuorumCert) ToBytes() []byte {
 	b := qc.view.ToBytes()
 	b = append(b, qc.hash[:]...)
 	if qc.signature != nil {
+		// bind what kind of signature the certificate carries and how many signers it names: these bytes
+		// are part of the block hash, and a certificate without a signature, with an empty one, or with
+		// the same bytes under another scheme's type are different certificates.
+		b = append(b, reflect.TypeOf(qc.signature).String()...)
+		b = append(b, 0)
+		b = append(b, ID(qc.signature.Participants().Len()).ToBytes()...)
 		// bind the identities of the signers: the signature bytes alone do not name them
 		qc.signature.Participants().ForEach(func(id ID) {
 			b = append(b, id.ToBytes()...)
